@@ -204,11 +204,18 @@ def run_family(ctx, pid, family, consts, judged_extra=None, options_mode=False, 
         turn = s["turns"][t - 1]
         if any(x != "A" for x in turn["inv"] + turn["outv"]) or turn["opts"]["set"]:
             nontriv.add((sid, t))
-        for cl in (clauses or CLAUSES.get(pid, [])):
+        cls = list(clauses or CLAUSES.get(pid, []))
+        poisoned = False
+        if (pid == "C03" and any(x in ("F", "G") for tt in s["turns"][: t - 1] for x in tt["inv"] + tt["outv"])
+                and not any(x in ("F", "G") for x in turn["inv"] + turn["outv"])):   # (a faulting turn itself is judged by `contained`)
+            # "the failure does not poison the conversation: the next turn is processed with all rails active"
+            poisoned = True
+            cls += [c for c in ("gate", "order", "reject", "ogate", "oreject", "ochecked") if c not in cls]
+        for cl in cls:
             if not v[cl]:
                 tr = real[sid][t - 1]
-                ctx.violation(cl, "%s: cfg=%s turns=%s turn=%d trace: %s" % (
-                    CLAUSE_TEXT[cl], s["cfg"], [dict({k: x[k] for k in ("kind", "inv", "outv")}, **({"opts": [k for k in ("input", "dialog", "retrieval", "output") if x["opts"][k]], "sup": x["sup"]} if x["opts"]["set"] else {})) for x in s["turns"]], t,
+                ctx.violation(("after-fault-" + cl) if (poisoned and cl not in ("contained", "completes")) else cl, "%s%s: cfg=%s turns=%s turn=%d trace: %s" % (
+                    "a turn after a failing action is not processed with all rails active: " if (poisoned and cl not in ("contained", "completes")) else "", CLAUSE_TEXT[cl], s["cfg"], [dict({k: x[k] for k in ("kind", "inv", "outv")}, **({"opts": [k for k in ("input", "dialog", "retrieval", "output") if x["opts"][k]], "sup": x["sup"]} if x["opts"]["set"] else {})) for x in s["turns"]], t,
                     short(tr["trace"])),
                     {"script": s, "turn": t, "clause": cl, "trace": tr["trace"], "raised": tr["raised"],
                      "sig": {"clause": cl, "ver": s["cfg"]["ver"], "shape": s["cfg"]["shape"], "exc": s["cfg"]["exc"],
